@@ -377,6 +377,19 @@ impl Parser {
 
         let user_data = input.user_data();
 
+        // a name is exported once: the second `export x: T = ..` used to compile and stop the importing
+        // program at run time with "Double export"
+        if is_export && assignment.as_rule() == Rule::assignment_type {
+            let exported_name = assignment.children().next().unwrap().as_str().to_owned();
+            if !user_data.register_exported_name(&exported_name) {
+                return Err(vec![new_err(
+                    name_span,
+                    &input.user_data().get_source_file_name(),
+                    format!("`{exported_name}` is exported already; a module exports a name once"),
+                )]);
+            }
+        }
+
         // We can't borrow a `Ref` here, because `rvalue` portion might borrow the call stack mutably.
         let self_type = user_data.get_owned_type_of_executing_class();
 
